@@ -123,7 +123,11 @@ impl RefIndex {
                     self.index_node(graph, child_id);
                 });
             }
-            GraphNode::Table(_) => {}
+            GraphNode::Table(table) => {
+                table.next_id().map(|child_id| {
+                    self.index_node(graph, child_id);
+                });
+            }
         }
     }
 }
